@@ -51,20 +51,28 @@ type lowPt struct {
 		UArgs []string `json:"uargs"`
 		EArgs []string `json:"eargs"`
 	} `json:"r"`
-	Recv  string   `json:"recv"`
-	Mode  string   `json:"mode"`
-	Ty    string   `json:"ty"`
-	B     string   `json:"b"`
-	NReq  int      `json:"nreq"`
-	Opts  []string `json:"opts"`
-	Given int      `json:"given"`
-	M     string   `json:"m"`
-	Base  string   `json:"base"`
-	Steps int      `json:"steps"`
-	Ctx   string   `json:"ctx"`
-	Twice bool     `json:"twice"`
-	V     lowVal   `json:"v"`
-	Den   lowVal   `json:"den"`
+	Recv     string   `json:"recv"`
+	Mode     string   `json:"mode"`
+	Ty       string   `json:"ty"`
+	B        string   `json:"b"`
+	NReq     int      `json:"nreq"`
+	Opts     []string `json:"opts"`
+	Given    int      `json:"given"`
+	M        string   `json:"m"`
+	Style    string   `json:"style"`
+	Vars     string   `json:"vars"`
+	Brk      bool     `json:"brk"`
+	NP       int      `json:"np"`
+	Variadic bool     `json:"variadic"`
+	NVar     int      `json:"nvar"`
+	NRes     int      `json:"nres"`
+	Body     string   `json:"body"`
+	Base     string   `json:"base"`
+	Steps    int      `json:"steps"`
+	Ctx      string   `json:"ctx"`
+	Twice    bool     `json:"twice"`
+	V        lowVal   `json:"v"`
+	Den      lowVal   `json:"den"`
 }
 
 type lowPoint struct {
@@ -598,6 +606,25 @@ func runC11(tier, replay string) {
 		states, transitions = res.Distinct, res.Generated
 	}
 	perRule := map[string]int{}
+	// rules judged by execution (R7 enumerators, R8 inline closures)
+	var execPts, rest []lowPoint
+	for _, p := range pts {
+		if p.Pt.Rule == "enum" || p.Pt.Rule == "inline" {
+			execPts = append(execPts, p)
+			perRule[p.Pt.Rule]++
+		} else {
+			rest = append(rest, p)
+		}
+	}
+	nexec := lowExecRun(run, execPts)
+	run.Set("executed_points", nexec)
+	pts = rest
+	if len(pts) == 0 {
+		run.Set("states", states)
+		run.Set("transitions", transitions)
+		run.Set("traces_validated_against_impl", nexec)
+		run.Finish()
+	}
 	w := newLowWorld()
 	var ref strings.Builder
 	ref.WriteString(lowPrelude)
@@ -739,7 +766,7 @@ func runC11(tier, replay string) {
 		run.Set("rule_"+r, n)
 	}
 	if replay == "" {
-		for _, r := range []string{"bti", "boolcast", "optional", "alias", "bigint", "bigrat", "member"} {
+		for _, r := range []string{"bti", "boolcast", "optional", "alias", "bigint", "bigrat", "member", "enum", "inline"} {
 			if perRule[r] == 0 {
 				run.Infra(fmt.Errorf("rule %s has no point", r))
 			}
@@ -751,11 +778,11 @@ func runC11(tier, replay string) {
 	}
 	run.Set("states", states)
 	run.Set("transitions", transitions)
-	run.Set("traces_validated_against_impl", len(pts))
+	run.Set("traces_validated_against_impl", len(pts)+nexec)
 	run.Set("exhaustive", true)
 	run.Set("rule", "a case = one point of Lower.tla's catalogue (extension pattern with its reference lowering) built with the real CodeBuilder; compared: typed canonical tree of the emitted declaration vs the reference lowering, go/types on both; big-number literals by exact value; distinct = distinct point")
 	run.Assume("'denotes the documented meaning' is decided structurally (same plain-Go program as the reference lowering), not by executing programs; the method table is a transcription of the documented mapping")
-	run.Assume("not in the catalogue yet: user-defined range enumerators, inline closure calls, tuple casts")
+	run.Assume("enumerators and inline closure calls are judged by executing the emitted lowering next to plain Go with instrumented operands (three condition schedules each); not in the catalogue: tuple casts")
 	run.Finish()
 }
 
